@@ -30,6 +30,9 @@ def build(case):
     elif case["hist"] == "continued":
         a.integrate(dtype(t0 + 0.5 * (tf - t0)), callback=b)
         a.integrate(dtype(tf), callback=b)
+    elif case["hist"] == "extended":
+        a.integrate(dtype(tf), callback=b)
+        a.integrate(dtype(tf + 0.75 * (tf - t0)), callback=b)       # the record extends beyond the configured (t0, tf)
     elif case["hist"] == "partial":
         a.integrate(dtype(t0 + 0.375 * (tf - t0)), callback=b)
     return a, dtype
@@ -142,7 +145,7 @@ def check_case(case):
 
 
 def run(ctx):
-    ctx.rule = ("every recorded grid of the declared family (uniform / adaptive x forward / backward / through zero / negative times x one call / continued / partial / never run x {run along the configured span, run direction chosen by integrate(t) against the configured span} "
+    ctx.rule = ("every recorded grid of the declared family (uniform / adaptive x forward / backward / through zero / negative times x one call / continued / extended beyond the configured span / partial / never run x {run along the configured span, run direction chosen by integrate(t) against the configured span} "
                 "x dense on/off x dtypes) x ALL integer indices in [-len-2, len+2] x query times {every recorded time and its two floating-point neighbours, every midpoint exactly "
                 "(tie) and +-2^j ulp for j in {0,1,2,10,20,30}, quarter points, outside both ends} x whole-run slices; reference = python list semantics with linear nearest search; "
                 "distinct = distinct (method, dense, direction, history, #rows) classes")
@@ -153,7 +156,7 @@ def run(ctx):
     for m, dt0 in (("EulerSolver", 0.25), ("RK4Solver", 0.25), ("RK45CKSolver", 0.25), ("DOPRI45", 0.5)) + ((("ABAs5o6HSolver", 0.25), ("ImplicitMidpoint", 0.25), ("RadauIIA5", 0.25)) if not ctx.quick else ()):
         for sp in spans:
             for dense in (False, True):
-                for hist in ("one", "continued", "partial", "none"):
+                for hist in ("one", "continued", "extended", "partial", "none"):
                     for dn in (("float64",) if ctx.quick else ("float64", "float32", "longdouble")):
                         cases.append(dict(method=m, span=list(sp), dt0=dt0, dense=dense, hist=hist, dtype=dn))
                         if hist != "none":
